@@ -787,7 +787,7 @@ fn main() {
     rep.assumption("IPv6 flow info / scope id are 0 in judged round trips (serde's SocketAddrV6 encoding carries neither; their loss is counted under v6_extras.*, not judged)");
     let miri = rep.is_miri();
     let threads = if miri { 1 } else { a.extra_u64("threads", a.pick(4u64, 16)) };
-    let (n_keys, n_strings, n_values, n_sign) = if miri { (10u64, 40u64, 3u64, 1u64) } else { a.pick((6_000, 30_000, 4_000, 1_500), (400_000, 2_000_000, 250_000, 80_000)) };
+    let (n_keys, n_strings, n_values, n_sign) = if miri { (1u64, 16u64, 1u64, 1u64) } else { a.pick((6_000, 30_000, 4_000, 1_500), (150_000, 800_000, 100_000, 30_000)) };
     std::thread::scope(|s| {
         for shard in 0..threads {
             let rep = &rep;
@@ -796,8 +796,9 @@ fn main() {
                 let mut rng = Rng::derive(seed, "C02", shard);
                 if shard == 0 {
                     // exhaustive custom-address matrix (boundary ids x every length 0..=64)
-                    let lens: Vec<usize> = if miri { vec![0, 1, 29, 30, 31, 32] } else { (0..=64).collect() };
-                    for id in [0u64, 1, 0xff, 1 << 32, u64::MAX] {
+                    let lens: Vec<usize> = if miri { vec![29, 30, 31] } else { (0..=64).collect() };
+                    let ids: &[u64] = if miri { &[u64::MAX] } else { &[0, 1, 0xff, 1 << 32, u64::MAX] };
+                    for &id in ids {
                         for &len in &lens {
                             rep.eval();
                             let data: Vec<u8> = (0..len).map(|i| (i as u8).wrapping_mul(7).wrapping_add(id as u8)).collect();
@@ -808,7 +809,7 @@ fn main() {
                             rep.nontrivial(format!("{id}/{len}").as_bytes());
                         }
                     }
-                    for h in SMALL_ORDER {
+                    for h in SMALL_ORDER.iter().take(if miri { 1 } else { 8 }) {
                         case_key_bytes(rep, unhex(h).try_into().unwrap(), "small-order");
                     }
                     if !miri {
